@@ -5,6 +5,9 @@ every level, namespace reads (they fill caches), instance creation / assignment 
 invariant tying `.param` to Python's own attribute lookup is evaluated on every class and instance."""
 import inspect
 import json
+import os
+
+from mc import pin
 
 from mc.engine import Harness, Result, V
 from mc.heapfp import try_fingerprint
@@ -21,7 +24,7 @@ class C13(Harness):
                  'invariant: .param agrees with inspect.getattr_static / getattr on every class and instance in every reached state')
     rule = ('state = heap fingerprint of the hierarchy A->B->C, A->B2, D(B, B2) and up to two instances; transition = one operation; the invariant is evaluated '
             'after every step, followed by a probe (watch + set on every instance, fresh instance of every class)')
-    assumptions = ('non-dynamic values; parameters x (bounded Number), y (String), k (constant list) and an added z',)
+    assumptions = ('non-dynamic values; parameters x (bounded Number), y (String), k (constant list), f (Filename resolved against a search path) and an added z',)
 
     def bounds(self, tier):
         return {'depth': 4 if tier == 'quick' else 5}
@@ -33,7 +36,8 @@ class C13(Harness):
         import param
         reset_globals()
         A = type('A', (param.Parameterized,), {'x': param.Number(default=1, bounds=(0, 10)), 'y': param.String(default='a'),
-                                                 'k': param.List(default=[1], constant=True)})
+                                                 'k': param.List(default=[1], constant=True),
+                                                 'f': param.Filename(default='engine.py', search_paths=[os.path.join(pin.VERIF, 'mc')])})
         B = type('B', (A,), {})
         C = type('C', (B,), {})
         B2 = type('B2', (A,), {'y': param.String(default='b2')})
@@ -52,7 +56,7 @@ class C13(Harness):
         if len(w['inst']) < 2:
             ops += [['new', 'B'], ['new', 'C'], ['new', 'A'], ['new', 'D']]
         for i in range(len(w['inst'])):
-            ops += [['iset', i, 'x', 5], ['iread', i], ['iset', i, 'y', 'w']]
+            ops += [['iset', i, 'x', 5], ['iread', i], ['iset', i, 'y', 'w'], ['iset', i, 'f', 'pin.py']]
         return ops
 
     def apply(self, w, op):
@@ -110,7 +114,7 @@ class C13(Harness):
                     continue
                 if n == 'name':
                     continue
-                if K.param[n].default != getattr(K, n):
+                if n != 'f' and K.param[n].default != getattr(K, n):       # (a Filename is resolved on access: default is the raw path)
                     vs.append(V('default', '%s: %s.param[%r].default=%r but %s.%s=%r' % (ctx, kn, n, K.param[n].default, kn, n, getattr(K, n)), cls=kn, name=n))
                 if vals.get(n) != getattr(K, n):
                     vs.append(V('values', '%s: %s.param.values()[%r]=%r but %s.%s=%r' % (ctx, kn, n, vals.get(n), kn, n, getattr(K, n)), cls=kn, name=n, level='class'))
